@@ -240,6 +240,89 @@ func (p *Program) optionalNodeFields() map[string]string {
 			return true
 		})
 	}
+	// (iii) fields a production leaves out of the literal it builds the node with and never stores afterwards
+	node := p.Iface(p.Parser, "Node")
+	isNodeRef := func(t types.Type) bool {
+		if _, isSlice := t.Underlying().(*types.Slice); isSlice {
+			return false
+		}
+		if _, isPtr := t.(*types.Pointer); !isPtr {
+			if _, isIface := t.Underlying().(*types.Interface); !isIface {
+				return false
+			}
+		}
+		return types.Implements(t, node)
+	}
+	for _, fd := range AllFuncs(p.Parser) {
+		ast.Inspect(fd.Body, func(n ast.Node) bool {
+			cl, ok := n.(*ast.CompositeLit)
+			if !ok {
+				return true
+			}
+			lt := info.TypeOf(cl)
+			st := StructOf(lt)
+			if st == nil || !(types.Implements(types.NewPointer(lt), node) || types.Implements(lt, node)) {
+				return true
+			}
+			set := map[*types.Var]bool{}
+			for _, el := range cl.Elts {
+				if kv, ok := el.(*ast.KeyValueExpr); ok {
+					if f, _ := objOf(info, kv.Key).(*types.Var); f != nil && !isNilIdent(info, kv.Value) {
+						set[f] = true
+					}
+				} else {
+					return true // positional literal: every field is given
+				}
+			}
+			// the variable the literal is held in (v := &T{...}, or *v = T{...})
+			var holder types.Object
+			var par ast.Node = p.Parent(cl)
+			if u, ok := par.(*ast.UnaryExpr); ok && u.Op == token.AND {
+				par = p.Parent(u)
+			}
+			if as, ok := par.(*ast.AssignStmt); ok && len(as.Lhs) == len(as.Rhs) {
+				for i, rhs := range as.Rhs {
+					x := ast.Unparen(rhs)
+					if u, ok := x.(*ast.UnaryExpr); ok {
+						x = ast.Unparen(u.X)
+					}
+					if x == ast.Expr(cl) {
+						l := ast.Unparen(as.Lhs[i])
+						if star, ok := l.(*ast.StarExpr); ok {
+							l = ast.Unparen(star.X)
+						}
+						holder = objOf(info, l)
+					}
+				}
+			}
+			for i := 0; i < st.NumFields(); i++ {
+				f := st.Field(i)
+				if set[f] || !isNodeRef(f.Type()) {
+					continue
+				}
+				stored := false
+				if holder != nil {
+					ast.Inspect(fd.Body, func(m ast.Node) bool {
+						if as, ok := m.(*ast.AssignStmt); ok && as.Pos() > cl.Pos() {
+							for _, l := range as.Lhs {
+								if sel, ok := ast.Unparen(l).(*ast.SelectorExpr); ok && selField(info, sel) == f && objOf(info, sel.X) == holder {
+									stored = true
+								}
+							}
+						}
+						return true
+					})
+				}
+				if !stored {
+					k := fieldKey(lt, f)
+					if _, dup := out[k]; !dup {
+						out[k] = fmt.Sprintf("left unset by a literal in %s", FuncName(p.Parser, fd))
+					}
+				}
+			}
+			return true
+		})
+	}
 	for k, v := range reviewedOptionalFields {
 		if _, ok := out[k]; !ok {
 			out[k] = v
